@@ -133,3 +133,48 @@ func VerifC04RoundTrip(shape, strLen int, stringify, deterministic bool) {
 	out2, err := Marshal(&w, opts...)
 	vrt.Assert("C04/remarshal-same-bytes", err == nil && bytes.Equal(out, out2))
 }
+
+type zz04Wide struct {
+	I int64            `json:"i"`
+	U uint64           `json:"u"`
+	Q int64            `json:"q,string"`
+	M map[int64]uint64 `json:"m"`
+}
+
+// VerifC04Wide: full 64-bit integer precision through Marshal and Unmarshal: for every int64
+// and uint64 value (as number, as quoted number via the `string` tag, and as map key), the
+// decoded value equals the original. (Decimal formatting of the symbolic integers is the
+// engine's contract stub: digit bytes constrained to denote the value; what is decided is that
+// layout, sign handling, quoting and parsing restore exactly that value.)
+func VerifC04Wide(part int, stringify bool) {
+	var v zz04Wide
+	switch part {
+	case 0:
+		v.I = vrt.Int64("i")
+	case 1:
+		v.U = vrt.Uint64("u")
+	case 2:
+		v.Q = vrt.Int64("q")
+	default:
+		v.M = map[int64]uint64{vrt.Int64("k"): vrt.Uint64("mv")}
+	}
+	out, err := Marshal(&v, StringifyNumbers(stringify))
+	vrt.Assert("C04/wide/marshal-succeeds", err == nil)
+	if err != nil {
+		return
+	}
+	vrt.Observe("out", out)
+	var w zz04Wide
+	err = Unmarshal(out, &w, StringifyNumbers(stringify))
+	vrt.Cover("decoded")
+	vrt.Assert("C04/wide/unmarshal-accepts-own-output", err == nil)
+	if err != nil {
+		return
+	}
+	same := v.I == w.I && v.U == w.U && v.Q == w.Q && len(v.M) == len(w.M)
+	for k, x := range v.M {
+		y, ok := w.M[k]
+		same = same && ok && x == y
+	}
+	vrt.Assert("C04/wide/value-restored-64bit", same)
+}
